@@ -54,6 +54,28 @@ mod task;
 
 mod io;
 
+/// Verification hooks: read-only access to a few internal pure functions.
+#[cfg(feature = "verif-hooks")]
+#[doc(hidden)]
+pub mod verif_api {
+    use nomt_core::trie::KeyPath;
+
+    /// For every page cache shard: smallest key, largest key, number of root children.
+    pub fn shard_regions(num_shards: usize) -> Vec<(KeyPath, KeyPath, usize)> {
+        crate::page_cache::verif_shard_regions(num_shards)
+    }
+
+    /// The shard the given root child belongs to.
+    pub fn shard_index_for(num_shards: usize, first_ancestor: usize) -> usize {
+        crate::page_cache::verif_shard_index_for(num_shards, first_ancestor)
+    }
+
+    /// The number of pages an overflow value of the given size occupies.
+    pub fn total_needed_pages(value_size: usize) -> usize {
+        crate::beatree::verif_total_needed_pages(value_size)
+    }
+}
+
 const MAX_COMMIT_CONCURRENCY: usize = 64;
 
 /// A full value stored within the trie.
